@@ -920,10 +920,17 @@ func (w *World) argOrigins(fn *ssa.Function, idx int, depth int) []argLeaf {
 				return
 			}
 			v := w.Resolve(c.Args[idx])
-			if p, ok := v.(*ssa.Parameter); ok && p.Parent() == g {
-				for i, q := range g.Params {
+			// (the parameter may be one of an enclosing function, captured by the closure g)
+			encl := false
+			if p, ok := v.(*ssa.Parameter); ok {
+				for a := g.Parent(); a != nil; a = a.Parent() {
+					encl = encl || a == p.Parent()
+				}
+			}
+			if p, ok := v.(*ssa.Parameter); ok && (p.Parent() == g || encl) {
+				for i, q := range p.Parent().Params {
 					if q == p {
-						sub := w.argOrigins(g, i, depth+1)
+						sub := w.argOrigins(p.Parent(), i, depth+1)
 						if len(sub) > 0 {
 							out = append(out, sub...)
 							return
